@@ -1,6 +1,8 @@
 //! C05 — depth-first search yields answers in Prolog order.
 use super::common::*;
 use super::search::*;
+use super::surface::*;
+use crate::emit::Naming;
 use crate::ast::*;
 use crate::canon::*;
 use crate::framework::*;
@@ -56,6 +58,87 @@ fn order_violation(prog: &Program, real: &[Ans], rans: &[Ans]) -> Option<(String
     }
 }
 
+/// `dfs { match t { p1 | p2 | .. => body, .. } }` where several alternatives of one arm (and several
+/// arms) match the same scrutinee, each binding the pattern variable to a different element.
+fn orpat_program(rng: &mut Rng) -> Program {
+    let n = 2 + rng.below(3);
+    let items: Vec<T> = (0..n).map(|i| T::Int(i as i64 + 1)).collect();
+    let narms = 1 + rng.below(3);
+    let mut arms = vec![];
+    for a in 0..narms {
+        let x: V = 50 + a as V;
+        let nalt = 1 + rng.below(3);
+        let mut pats = vec![];
+        for _ in 0..nalt {
+            let j = rng.below(n + 1);
+            let mut front: Vec<T> = (0..j.min(n - 1)).map(|_| T::Any).collect();
+            let p = if j >= n {
+                // the whole list
+                T::Var(x)
+            } else if rng.chance(1, 2) {
+                front.push(T::Var(x));
+                T::improper(front, T::Any)
+            } else {
+                // exact-length pattern
+                let mut all: Vec<T> = (0..n).map(|_| T::Any).collect();
+                all[j] = T::Var(x);
+                T::list(all)
+            };
+            pats.push(p);
+        }
+        let body = match rng.below(3) {
+            0 => vec![G::Eq(v(0), T::Var(x))],
+            1 => vec![G::Cond(vec![vec![G::Eq(v(0), T::Var(x))], vec![G::Eq(v(0), T::list(vec![T::Var(x), T::Int(a as i64)]))]])],
+            _ => vec![G::Eq(v(0), T::list(vec![T::Int(a as i64), T::Var(x)]))],
+        };
+        arms.push(Arm { pats, body });
+    }
+    let scrut_var: V = 40;
+    let (scrut, pre) = if rng.chance(1, 2) { (T::list(items), vec![]) } else { (T::Var(scrut_var), vec![G::Eq(T::Var(scrut_var), T::list(items))]) };
+    let mut inner = pre;
+    inner.push(G::Match(MatchKind::Match, scrut, arms));
+    if rng.chance(1, 3) {
+        inner.push(G::Cond(vec![vec![G::Eq(v(1), T::Int(1))], vec![G::Eq(v(1), T::Int(2))]]));
+    }
+    Program::new(vec![0, 1], vec![G::Dfs(vec![vec![G::Fresh(vec![scrut_var], inner)]])])
+}
+
+impl C05 {
+    /// Depth-first programs that are EMITTED AS SOURCE and compiled, so that the order produced by
+    /// the macro expansion (clause order of cond, alternative order of `p1 | p2` arms, conjunction
+    /// order inside operator bodies) is observed too, not only the order of API-built goal trees.
+    fn surface_cases(tier: Tier, seed: u64) -> Vec<SurfCase> {
+        let n = if tier == Tier::Thorough { 1500 } else { 70 };
+        let mut cases = vec![];
+        for i in 0..FIXED.len() {
+            cases.push(SurfCase { prog: dfs_wrapped(&fixed_program(i)), naming: Naming::Distinct, twin_of: None, infinite: false, ordered: true, tag: "fixed" });
+        }
+        for i in 0..n {
+            let mut rng = Rng::for_case(seed, "c05-surface", i as u64);
+            cases.push(SurfCase { prog: orpat_program(&mut rng), naming: Naming::Distinct, twin_of: None, infinite: false, ordered: true, tag: "orpat" });
+            let mut tries = 0;
+            loop {
+                tries += 1;
+                let mut cfg = SearchCfg::default();
+                cfg.nq = 1 + rng.below(2);
+                cfg.max_goals = 3;
+                let prog = dfs_wrapped(&SearchGen::new(&mut rng, cfg).program());
+                let ok = match ref_answers(&prog, false) {
+                    Ok(a) => a.len() >= 2 && a.len() <= 30,
+                    Err(_) => false,
+                };
+                if ok || tries >= 20 {
+                    if ok {
+                        cases.push(SurfCase { prog, naming: Naming::Distinct, twin_of: None, infinite: false, ordered: true, tag: "search" });
+                    }
+                    break;
+                }
+            }
+        }
+        cases
+    }
+}
+
 impl Check for C05 {
     fn id(&self) -> &'static str {
         "C05"
@@ -64,7 +147,7 @@ impl Check for C05 {
         vec![GenSpec { name: "search", quick: 8000, thorough: 400_000 }, GenSpec { name: "wide", quick: 3000, thorough: 100_000 }, GenSpec { name: "fixed", quick: FIXED.len() as u64, thorough: FIXED.len() as u64 }]
     }
     fn rule(&self) -> &'static str {
-        "Finite-tree programs wrapped in dfs { }: nested mode-inferred disjunctions (cond) of 2-6 clauses incl. trivially true/false clauses, conjunctions whose earlier goals have several answers, fresh, member/append/rember on ground and partially ground lists, generated structurally recursive relations (closures) over ground lists, match with alternatives (DFS conde), ==, !=, to nesting depth 3; 'wide' forces disjunctions of 4-6 clauses with answers in the middle clauses. The sequence of answers of the real engine is compared POSITION BY POSITION with the reference depth-first interpreter (tuple variants + equal ground-instance sets of the constraints). Distinct = distinct program text; non-trivial = the reference yields at least 2 answers (an order exists)."
+        "Finite-tree programs wrapped in dfs { }: nested mode-inferred disjunctions (cond) of 2-6 clauses incl. trivially true/false clauses, conjunctions whose earlier goals have several answers, fresh, member/append/rember on ground and partially ground lists, generated structurally recursive relations (closures) over ground lists, match with alternatives (DFS conde), ==, !=, to nesting depth 3; 'wide' forces disjunctions of 4-6 clauses with answers in the middle clauses. The sequence of answers of the real engine is compared POSITION BY POSITION with the reference depth-first interpreter (tuple variants + equal ground-instance sets of the constraints). A second lane EMITS depth-first programs as Rust source (proto_vulcan_query!), compiles them against the current tree and compares the compiled program's answer sequence with the reference in the same way: the fixed programs, programs `dfs { match t { p1 | p2 | p3 => body, ... } }` in which several alternatives of one arm and several arms match the same list (each binding the pattern variable to a different element), and search programs from the generator above with 2-30 answers; this observes the order produced by the macro expansion, which API-built goal trees bypass. Distinct = distinct program text; non-trivial = the reference yields at least 2 answers (an order exists)."
     }
     fn assumptions(&self) -> Vec<String> {
         vec!["reference: left-to-right depth-first list-monad interpreter (pvmon::refsem), written independently of the stream engine".into()]
@@ -76,9 +159,17 @@ impl Check for C05 {
         }
     }
     fn required_counters(&self) -> Vec<&'static str> {
-        vec!["sequences_compared", "path_mplus_dfs_empty", "path_mplus_dfs_unit", "path_mplus_dfs_lazy", "path_mplus_dfs_cons", "path_bind_dfs_cons", "path_bind_dfs_unit", "path_bind_dfs_lazy", "programs_with_4plus_clause_disjunction"]
+        vec!["sequences_compared", "compiled_sequences_compared", "tag_orpat", "tag_search", "path_mplus_dfs_empty", "path_mplus_dfs_unit", "path_mplus_dfs_lazy", "path_mplus_dfs_cons", "path_bind_dfs_cons", "path_bind_dfs_unit", "path_bind_dfs_lazy", "programs_with_4plus_clause_disjunction"]
+    }
+    fn run_batch(&self, tier: Tier, seed: u64) -> Option<Merged> {
+        let cases = Self::surface_cases(tier, seed);
+        Some(run_surface_batch("C05", cases, vec![], seed, false))
     }
     fn run_case(&self, gen: &str, seed: u64, index: u64, tier: Tier) -> CaseOut {
+        if gen == "surface" {
+            // replay of one compiled case (violation files name them `surface:<k>`)
+            return replay_case("C05", Self::surface_cases(tier, seed), index as usize, seed, false);
+        }
         let mut out = CaseOut::default();
         let mut rng = Rng::for_case(seed, gen, index);
         let inner = match gen {
